@@ -1,5 +1,6 @@
 import GV.Model.DmqAuth
 import GV.Model.DmqSym
+import GV.Gen.DmqAuthFacts
 /-!
 C46 — DMQ messages are accepted only when fully authenticated.
 
@@ -279,6 +280,30 @@ theorem cert_binds_fields (sgn : Key → Key → Nat → Nat → Sig)
     rw [hs, e1] at e2
     obtain ⟨a1, a2, a3, a4⟩ := hinj _ _ _ _ _ _ _ _ e2
     exact hne ⟨a1.symm, a2.symm, a3.symm, a4.symm⟩
+
+/-! ### regenerated source facts
+
+The order of the five steps, the byte lengths they compare against, the rotation comparison and
+the slots-per-KES-period constant are read off protocol/common/authentication.go on every run
+(extract/facts_g8.go); the model was written against exactly these. A reordered step, a changed
+length or a `<` turned into `<=` in the Go source breaks this obligation without any test input. -/
+theorem source_facts :
+    GV.Gen.DmqAuthFacts.steps =
+      ["verifyMessageID", "verifyOperationalCertificate", "verifyKESSignature", "computePoolID",
+       "verifyKESPeriodRotation"] ∧
+    GV.Gen.DmqAuthFacts.internalConds =
+      ["m.disableValidation", "msg == nil", "err != nil", "err != nil", "err != nil", "!registered",
+       "err != nil"] ∧
+    GV.Gen.DmqAuthFacts.verifyMessageID_lens =
+      [("messageID", "==", "0"), ("messageID", "!=", "blake2b.Size256")] ∧
+    GV.Gen.DmqAuthFacts.verifyOperationalCertificate_lens =
+      [("coldVerificationKey", "!=", "32"), ("opcert.ColdSignature", "!=", "64")] ∧
+    GV.Gen.DmqAuthFacts.verifyKESSignature_lens =
+      [("msg.KESSignature", "!=", "448"), ("msg.OperationalCertificate.KESVerificationKey", "!=", "32")] ∧
+    GV.Gen.DmqAuthFacts.rotationConds = ["exists && opcert.IssueNumber < lastOpCertNumber"] ∧
+    GV.Gen.DmqAuthFacts.slotsPerKesPeriod = "129600" ∧
+    (newAuth : Auth Nat Nat Nat Nat).slotsPerKesPeriod = 129600 := by
+  decide
 
 /-! ### TTL validator -/
 
